@@ -79,7 +79,26 @@ package lspcommon
 
 // OffsetForPosition: cursor position -> byte offset (every cursor request goes through it).
 //@ func OffsetForPosition
-//@   props C01
+//@   props C01 C04
 //@   sweep C01
+//@   opt infer
+//@   requires[C04] WF(contents, 0)
 //@   ensures[offset-in-text] result1 == nil ==> 0 <= result0 && result0 <= len(contents)
+//@   ensures[C04,offset-is-lsp-position] result1 == nil ==> atPos(contents, result0, posLine, posCh)
+//@   loop 0 invariant [C04] 0 <= index && index <= len(contents) && index == offset && WF(contents, index)
+//@          && B(contents, index) && L(contents, index) == line && C(contents, index) == col
+//@   loop 0 decreases len(contents) - index
+//@ end
+
+// LocToRange: 1-based Loc lines become 0-based LSP lines, columns are copied; an ordered,
+// in-range Loc gives start <= end (no uint32 wrap-around).
+//@ spec wfLoc(sl int, sc int, el int, ec int) bool = sl >= 1 && sc >= 0 && (el > sl || (el == sl && ec >= sc)) && el < 4294967296 && sc < 4294967296 && ec >= 0 && ec < 4294967296
+//@ func LocToRange
+//@   props C04
+//@   requires loc != nil
+//@   ensures[C04,lines-shift-columns-copied] wfLoc(loc.StartLine, loc.StartColumn, loc.EndLine, loc.EndColumn) ==>
+//@        result.Start.Line == loc.StartLine - 1 && result.Start.Character == loc.StartColumn
+//@        && result.End.Line == loc.EndLine - 1 && result.End.Character == loc.EndColumn
+//@   ensures[C04,start-not-after-end] wfLoc(loc.StartLine, loc.StartColumn, loc.EndLine, loc.EndColumn) ==>
+//@        (result.Start.Line < result.End.Line || (result.Start.Line == result.End.Line && result.Start.Character <= result.End.Character))
 //@ end
